@@ -731,7 +731,11 @@ def main():
     ck.trusted = DEFAULT_TRUSTED + ["harness/c08_smo.cpp: forwarding wrapper around the real problem object (QpSolver is templated on it); private members read through '#define private public' in that TU only",
                                    "modelled, not verified: float drift of the incrementally maintained gradient (monitored with a tolerance proportional to iterations*eps*scale); kernel cache (C09); selection strategies (any pair is allowed by the theorems, the gain theorem needs g_i >= g_j)"]
     ck.assumptions = ["kernel matrix symmetric; objective monotonicity additionally needs K_ii+K_jj-2K_ij >= 0 and g_i >= g_j for the selected pair (SvmProblem) resp. the determinant/edge hypotheses of box2d_gain_nonneg_partial (BoxConstrainedProblem)",
-                      "main stream: data with small-integer/dyadic coordinates, so every threshold comparison of the sub-solvers is far from its boundary; the extreme stream (tiny data, C>=1e7) is reported separately"]
+                      "main stream: data with small-integer/dyadic coordinates, so every threshold comparison of the sub-solvers is far from its boundary; the extreme stream (tiny data, C>=1e7) is reported separately",
+                      "object-history stream: mutators are generated inside the preconditions of C08_every_history_with_mutators (setInitialSolution only on an object with identity permutation; "
+                      "scaleBoxConstraints with different factors and flipCoordinates only after unshrink(); setShrinking(true) only on an object built with shrinking). Outside them /repo has LATENT defects "
+                      "(no library caller): generators behind C08_HIST_SETINIT / C08_HIST_SETSHRINKING / C08_HIST_SCALE_SHRUNK or a known_findings entry matching tools/c08.py LATENT_KEYS",
+                      "shrink-event monitor: 'cannot improve' is first order (no feasible ascent direction w.r.t. the true gradient among the variables the shrink decision was taken on), slack proportional to the gradient scale"]
     ck.proofs()
     model = extract_model(PID, "C08Extract.v", "c08_driver.ml")
     exe, err = cxx_build("c08_smo", [os.path.join(ROOT, "harness", "c08_smo.cpp")])
@@ -835,7 +839,11 @@ def main():
     ck.cov["rule"] = ("real QpSolver runs (SvmShrinkingProblem / BoxConstrainedShrinkingProblem over CSVMProblem; selection MVP/LibSVM/HMG resp. MaximumGain/MaximumGradient/WS2; "
                       "shrinking on/off; cached float/double with capacities 2n..default, precomputed; linear/Gaussian kernel; n=4..30 points with integer or dyadic coordinates, duplicates; "
                       "C in 0.125..1e4, class-specific C; cold and warm starts); every recorded event (updateSMO, shrink, unshrink, checkKKT) is one evaluation: model step on the "
-                      "implementation's previous snapshot compared with its next snapshot + invariants recomputed from an independent kernel matrix; non-trivial = run with >= 3 events")
+                      "implementation's previous snapshot compared with its next snapshot + invariants recomputed from an independent kernel matrix; non-trivial = run with >= 3 events. "
+                      "long stream: n=120..300 (thorough ..450) overlapping Gaussian points, Gaussian kernel, C in {10,100}, eps 1e-3, up to 25000 iterations, sparse recording (state before/after "
+                      "every shrink/unshrink/checkKKT call; updateSMO calls in between are covered by the objective/invariant checks of the recorded states). "
+                      "hist stream: main-stream problems with shrinking, solved, then 1..10 calls of setLinear / setInitialSolution (fresh object) / scaleBoxConstraints (equality-constrained kind over "
+                      "CSVMProblem) / activateVariable / flipCoordinates / unshrink / setShrinking on the SAME object, each one event of the one-step correspondence, then solved again and compared with a fresh object")
     ck.cov["samples"] = [run_line(c)[:300] for c, _, _, _ in res[:2]]
     ck.cov["traces_validated_against_impl"] = len(res)
     ck.cov["disagreements_checked"] = ndis + nmon
